@@ -72,9 +72,13 @@ def gen_blockcase(rng, cid, P):
         frs = [(n // P) * p for p in range(P + 1)]; fcs = list(frs)
     else:
         nb = rng.randint(1, 7); br = bc = rng.choice([1, 2, 2, 3])
-        fr, fc = default_partition(nb, nb, P)
-        n = nb * br
+        nbc = nb if (rng.random() < 0.6 or nb < P) else rng.randint(P, 9)     # rectangular block grids (rows >= processes)
+        fr, fc = default_partition(nb, nbc, P)
+        n = nb * br; ncols = nbc * bc
         frs = [v * br for v in fr]; fcs = [v * bc for v in fc]
+        trip = gen.rand_triples(rng, n, ncols, rng.choice([0, 1, 2 * n, 4 * n, n * ncols]) if n * ncols else 0)
+        trip = list({(i, j): (i, j, v) for (i, j, v) in trip}.values())
+        return dict(cid=cid, nr=n, nc=ncols, P=P, fr=frs, fc=fcs, explicit=True, trip=trip, br=br, bc=bc)
     trip = gen.rand_triples(rng, n, n, rng.choice([0, 1, 2 * n, 4 * n, n * n]) if n else 0)
     trip = list({(i, j): (i, j, v) for (i, j, v) in trip}.values())       # to_ParBSR overwrites: one value per position
     return dict(cid=cid, nr=n, nc=n, P=P, fr=frs, fc=fcs, explicit=True, trip=trip, br=br, bc=bc)
